@@ -3,8 +3,10 @@ whatever the exponent size.  Oracle: the exact sparse-polynomial model and plain
 Rule used throughout: when every exponent involved (operands and exact result) is below ACCEPT = 55 000 the
 operation must succeed and be exact; otherwise it may raise, but whatever it returns must still be exact."""
 from __future__ import annotations
+import io
 import operator
 import os
+import pathlib
 import pickle
 import tempfile
 from fractions import Fraction
@@ -320,6 +322,29 @@ def gen_ops(tier, rng):
                "args": [rng.choice([1, -1, 0, 1, -1]) for _ in range(D)]}
 
 
+def gen_ops_all(tier, rng):
+    yield from gen_ops(tier, rng)
+    # products of multi-term operands whose large exponent sits in a NON-leading indeterminate (q1, q2), q0 exponents small
+    for _ in range(count(tier, 250, 4000)):
+        D = rng.choice([2, 2, 3])
+        k = rng.randrange(1, D)
+        big = lambda: rng.choice([rng.randrange(256, 325), rng.randrange(256, 325), rng.randrange(69, 401), rng.choice([69, 127, 128, 196, 197, 255, 256, 324, 325, 400])])
+        row = lambda e, j: [e if i == j else 0 for i in range(D)]
+        small = [row(0, 0), row(1, 0), row(2, 0), row(1, k), [1] * D, [1 if i != k else 0 for i in range(D)]]
+        floats = rng.random() < 0.4
+        cs = [-2.5, -1.0, 0.5, 1.0, 2.0, 3.0] if floats else [-2, -1, 1, 2, 3]
+        xr = [row(big(), k)] + rng.sample(small, rng.randint(1, 3))
+        if rng.random() < 0.3:
+            xr[1] = [xr[1][i] + (rng.choice([1, 2]) if i == 0 else 0) for i in range(D)]    # highest-q0 term: still small exponents
+        yr = rng.sample(small, rng.randint(1, 3)) + ([row(rng.choice([big(), rng.randrange(1, 120)]), rng.choice([k, rng.randrange(D)]))] if rng.random() < 0.4 else [])
+        xr, yr = [list(t) for t in sorted({tuple(t) for t in xr})], [list(t) for t in sorted({tuple(t) for t in yr})]
+        x = {"exponents": xr, "coefficients": [rng.choice(cs) for _ in xr]}
+        y = {"exponents": yr, "coefficients": [rng.choice(cs) for _ in yr]}
+        if rng.random() < 0.5:
+            x, y = y, x
+        yield {"D": D, "op": rng.choice(["mul", "mul", "mul_function"]), "x": x, "y": y, "var": k, "args": [1] * D, "dtype": "float64" if floats else "int64"}
+
+
 def model_of(t, names):
     return MPoly({MPoly.mono(names, e): Fraction(c) for e, c in zip(t["exponents"], t["coefficients"])})
 
@@ -345,14 +370,16 @@ def scalar(m):
     return a
 
 
-@check("C20", "operations.large_exponent_tuples", gen_ops,
+@check("C20", "operations.large_exponent_tuples", gen_ops_all,
        functions=("numpoly.add", "numpoly.subtract", "numpoly.multiply", "numpoly.align_exponents", "numpoly.align_polynomials",
                   "numpoly.align_indeterminants", "numpoly.derivative", "numpoly.call", "numpoly.ndpoly.__reduce__", "numpoly.polynomial",
                   "numpoly.ndpoly.__getitem__", "numpoly.equal"),
        note="bounded: two 0-d operands of 1-3 terms drawn from a common pool of <=5 exponent tuples (so equal tuples meet and must merge, "
             "distinct ones must stay apart) in 1-3 indeterminates, exponents up to 300 / 1000 / 55000 / 10**5; 13 operations (+, -, *, "
             "align_exponents, align_polynomials, derivative, evaluation at 1/-1/0 full and partial (partial: exponents of the remaining indeterminates <= 40), pickle, raw view and back, dict "
-            "construction, indexing, ==); exact model; exceptions accepted only when an exponent >= 55000 is involved")
+            "construction, indexing, ==); exact model; exceptions accepted only when an exponent >= 55000 is involved; plus 250 (4000) "
+            "products of 2-4-term operands in 2-3 indeterminates where an exponent 69..400 (mostly 256..324) sits in q1 or q2 while all "
+            "q0 exponents are <= 4, either operand order, int64 and float64 coefficients, x*y and numpoly.multiply")
 def large_ops(inp):
     import numpoly
     install_poison()
@@ -360,12 +387,13 @@ def large_ops(inp):
     names = [f"q{i}" for i in range(D)]
     mx, my = model_of(inp["x"], names), model_of(inp["y"], names)
     biggest = max(max(e) for t in (inp["x"], inp["y"]) for e in t["exponents"])
-    if op == "mul":
+    dtype = inp.get("dtype", "int64")
+    if op in ("mul", "mul_function"):
         biggest = max([biggest] + [e for m in (mx * my).t for _, e in m])
 
     def run():
-        x = mono_poly(inp["x"]["exponents"], inp["x"]["coefficients"], names)
-        y = mono_poly(inp["y"]["exponents"], inp["y"]["coefficients"], names)
+        x = mono_poly(inp["x"]["exponents"], inp["x"]["coefficients"], names, dtype)
+        y = mono_poly(inp["y"]["exponents"], inp["y"]["coefficients"], names, dtype)
         msg = wf(x, "operand") or denotes(x, scalar(mx), "operand") or denotes(y, scalar(my), "second operand")
         if msg:
             return msg
@@ -373,6 +401,9 @@ def large_ops(inp):
             f = {"add": operator.add, "sub": operator.sub, "mul": operator.mul}[op]
             r = f(x, y)
             return wf(r) or denotes(r, scalar(f(mx, my)))
+        if op == "mul_function":
+            r = numpoly.multiply(x, y)
+            return wf(r) or denotes(r, scalar(mx * my), "numpoly.multiply")
         if op in ("align_exponents", "align_polynomials"):
             rx, ry = getattr(numpoly, op)(x, y)
             if rx.exponents.tolist() != ry.exponents.tolist():
@@ -409,39 +440,71 @@ def large_ops(inp):
 
 
 # ------------------------------------------------------------------ text files
+VIAS = ["path", "pathlib", "text_file", "binary_file", "stringio", "bytesio"]
+
+
 def gen_text(tier, rng):
     singles = list(range(0, 1300 if tier == "thorough" else 300)) + [e for e in BOUNDARY if e < 2 ** 32]
     singles += [rng.randrange(10 ** 5) for _ in range(count(tier, 60, 600))]
     for e in singles:
-        yield {"exponents": [[0], [e]] if e else [[0], [1]], "shape": rng.choice([[2], [3], [2, 2]])}
+        yield {"exponents": [[0], [e]] if e else [[0], [1]], "shape": rng.choice([[2], [3], [2, 2]]), "via": rng.choice(VIAS)}
     for _ in range(count(tier, 60, 600)):
         D = rng.choice([1, 2, 3])
         top = rng.choice([200, 300, 1000, 10 ** 5])
         rows = {tuple(rng.choice([0, 1, rng.randrange(top)]) for _ in range(D)) for _ in range(rng.randint(2, 4))}
         if len(rows) > 1:
-            yield {"exponents": sorted(list(r) for r in rows), "shape": rng.choice([[2], [3], [2, 2]])}
+            yield {"exponents": sorted(list(r) for r in rows), "shape": rng.choice([[2], [3], [2, 2]]), "via": rng.choice(VIAS)}
+    # exactly one term; keys 128..255 are one latin-1 byte but two UTF-8 bytes: binary streams must not mix the two up
+    for e in list(range(69, 197)) + [1, 2, 68, 197, 198, 255, 256, 300, 1000, 2000, ACCEPT]:
+        for via in (VIAS if tier == "thorough" else ["bytesio", rng.choice(["stringio", "text_file"]), rng.choice(["path", "binary_file", "pathlib"])]):
+            yield {"exponents": [[e]], "shape": rng.choice([[], [1], [3], [2, 2]]), "via": via}
+    # exponent rows whose latin-1 key bytes form one valid UTF-8 sequence (lead byte, continuation bytes)
+    for _ in range(count(tier, 40, 400)):
+        row = [rng.randrange(0xC2, 0xE0) - KEY_OFFSET, rng.randrange(0x80, 0xC0) - KEY_OFFSET]
+        if rng.random() < 0.4:
+            row = [rng.randrange(0xE1, 0xED) - KEY_OFFSET, rng.randrange(0x80, 0xC0) - KEY_OFFSET, rng.randrange(0x80, 0xC0) - KEY_OFFSET]
+        rows = [row] if rng.random() < 0.6 else [[0] * len(row), row]
+        yield {"exponents": rows, "shape": rng.choice([[], [1], [3]]), "via": rng.choice(["bytesio", "bytesio", "binary_file", "stringio", "path"])}
+
+
+def save_and_load(numpoly, p, via, tmp):
+    path = os.path.join(tmp, "p.txt")
+    if via in ("path", "pathlib"):
+        path = pathlib.Path(path) if via == "pathlib" else path
+        numpoly.savetxt(path, p)
+        return numpoly.loadtxt(path)
+    if via in ("text_file", "binary_file"):
+        b = "b" if via == "binary_file" else ""
+        with open(path, "w" + b) as dst:
+            numpoly.savetxt(dst, p)
+        with open(path, "r" + b) as src:
+            return numpoly.loadtxt(src)
+    stream = io.StringIO() if via == "stringio" else io.BytesIO()
+    numpoly.savetxt(stream, p)
+    stream.seek(0)
+    return numpoly.loadtxt(stream)
 
 
 @check("C20", "textio.large_exponents", gen_text, functions=("numpoly.savetxt", "numpoly.loadtxt", "numpoly.polynomial"),
        note="bounded: every exponent 0..1299 (quick 0..299), the boundary list and random exponents < 10**5 as a two-term 1-/2-d array, plus "
-            "random 2-4-term arrays in 1-3 indeterminates; savetxt then loadtxt: any exception is accepted (C13 covers the format), but a "
-            "loaded polynomial must consist of exactly the saved monomials with their coefficients")
+            "random 2-4-term arrays in 1-3 indeterminates, plus single-term arrays (0-d, 1-d, 2-d) for every exponent 69..196 and 11 others, "
+            "plus 40 (400) rows in 2-3 indeterminates whose key bytes form one valid UTF-8 sequence; through a path, pathlib.Path, text and "
+            "binary file objects, io.StringIO and io.BytesIO (all 6 in thorough, 3 per exponent in quick); savetxt then loadtxt: any "
+            "exception is accepted (C13 covers the format), but a loaded polynomial must consist of exactly the saved monomials with their coefficients")
 def text_roundtrip(inp):
     import numpoly
     install_poison()
     rows, shape = inp["exponents"], tuple(inp["shape"])
-    size = int(numpy.prod(shape))
+    size = int(numpy.prod(shape, dtype=int))
     coefs = [numpy.arange(1 + i, 1 + i + size, dtype="float64").reshape(shape) for i in range(len(rows))]
     names = tuple(f"q{i}" for i in range(len(rows[0])))
     want = numpy.empty(shape, dtype=object)
     for idx in numpy.ndindex(*shape):
         want[idx] = MPoly({MPoly.mono(names, e): Fraction(float(c[idx])) for e, c in zip(rows, coefs)})
     with tempfile.TemporaryDirectory() as tmp:
-        path = os.path.join(tmp, "p.txt")
         try:
             p = numpoly.polynomial_from_attributes(rows, coefs, names, retain_coefficients=True, retain_names=True)
-            numpoly.savetxt(path, p)
-            r = numpoly.loadtxt(path)
+            r = save_and_load(numpoly, p, inp.get("via", "path"), tmp)
         except Timeout:
             raise
         except Exception:
@@ -450,5 +513,5 @@ def text_roundtrip(inp):
         return f"loadtxt returned {type(r).__name__} for a saved polynomial with exponents {rows}"
     got = from_ndpoly(r)
     if got.shape != want.shape or not same(got, want):
-        return f"saved {describe(want)} (exponents {rows}), loaded {describe(got)} (exponents {r.exponents.tolist()})"
+        return f"saved {describe(want)} (exponents {rows}) via {inp.get('via', 'path')}, loaded {describe(got)} (exponents {r.exponents.tolist()})"
     return None
